@@ -26,6 +26,13 @@ class CallMixin:
                 return SV(self.truthy(self.ev(node.args[0], st)), T.Bool)
             if name == "same":
                 a_, b_ = self.ev(node.args[0], st), self.ev(node.args[1], st)
+                if a_.ty != b_.ty:
+                    try:
+                        a_, b_ = self.unify(a_, b_)
+                    except Unsupported:
+                        return SV(z3.BoolVal(False), T.Bool)  # values of different types are not the same object
+                    if a_.t.sort() != b_.t.sort():
+                        return SV(z3.BoolVal(False), T.Bool)
                 return SV(a_.t == b_.t, T.Bool)
             if name == "distinct":
                 q = self.ev(node.args[0], st)
@@ -476,6 +483,7 @@ class CallMixin:
         def writeback(newv):
             if lv is None:
                 return  # mutation of a temporary: invisible
+            self.note_mutation(st, lv[0], node)
             self.write_path(st, lv[0], lv[1], newv, node)
 
         if isinstance(ty, T.Seq):
